@@ -15,6 +15,30 @@ HOOK_COMMITS = []
 SPEC_DIRS = {"C01": "RaceDriver", "C07": "RaceDriver", "C09": "RaceDriver", "C06": "Throughput", "C15": "BranchMatch"}
 
 
+# legs / alphabets added after the first build, per property (kept short; details in DESIGN.md §10.2 and §11)
+ADDED = {
+    "C01": "clauses CompletedByEnds, CompletedByCuts, NoSpuriousFailure; scenarios W3Split/W3Early/TwoCB/TwoAny/Ragged and a generated family; blocking waits and unprojectable states handled; progress reporting on in half of the races.",
+    "C02": "a leg on the real Driver.start_benchmark (rows sent to workers partition the clients).",
+    "C03": "exact ceil table for ingest-percentage; corpora loaded by the real loader; stale offset-table histories; adapter leg through the real AsyncIoAdapter (tasks sharing an operation); explicit corpora lists.",
+    "C04": "sub-millisecond schedule offsets; element leg (real Allocator/AsyncIoAdapter); completion event inside a throttle wait; wire leg.",
+    "C05": "element leg with ramp-up; completion-exposing runners; driver progress leg.",
+    "C06": "driver leg (calculate() calls of the real Driver in simulated races); mixed units within a task.",
+    "C07": "generated scenarios; preemption at unlocked accesses to the sampler's deque; high-volume leg; client id observed at the wire.",
+    "C08": "hand-overs through bulk_add as race control does; dependent timings; stored percentile key set; non-ASCII races read back under LC_ALL=C; query leg on a real EsMetricsStore over an evaluating fake of the search API.",
+    "C09": "prep leg (TrackPrep.tla); unsuccessful results and retried connection errors as request faults; lenient tasks next to strict ones; siblings that go on after a failure.",
+    "C10": "target-index rules; exists_set_param macro; special characters; parameters used only in index bodies/templates; imported macros and single-quoted collect; base-url per document set.",
+    "C11": "multi-challenge tracks; emptied parallels; case-sensitive and custom operation-type filters.",
+    "C12": "multi-lifecycle histories incl. restart after a failed start; buffering metrics store (ShutdownMetricsStored); race unknown to the host's race store.",
+    "C13": "several nodes from one Car object; docker provisioning path; locale leg (child interpreter under LC_ALL=C).",
+    "C14": "CRLF corpora; corrupt-payload and over-expanding archives; short bodies; stalled connections; sub-second table age; signatures that tell who left a trusted file.",
+    "C15": "dirty working copy; branches deleted upstream; recorded revision.",
+    "C16": "histories on one Retry instance and one shared params dict (ParamsUntouched).",
+    "C17": "error body shapes; many-item bulk errors; concrete connection error classes.",
+    "C18": "failing sub-requests and failed streams (judged after fix f822262); ClientIndependent (solo re-execution); DependentDated; wire leg.",
+    "C19": "bulk items status x _shards x op types; hits.total shapes; error description transcription; dotted member names.",
+    "C20": "colliding task/operation names; locale leg (report file under LC_ALL=C).",
+}
+
 MORE_SPEC_DIRS = {"C09": ["TrackPrep"], "C01": ["ActorSem"], "C04": ["WireTiming"], "C18": ["WireTiming"]}
 
 
@@ -302,7 +326,7 @@ def build():
                 "replay_cmd_template": "./check %s --replay {path}" % pid,
                 "engine": c["engine"],
                 "level_claimed": {"category": "model_checking", "text": c["text"], "design_ref": c["design_ref"]},
-                "level_note": c["note"],
+                "level_note": c["note"] + ((" Added while seeded changes were studied (DESIGN.md §11): " + ADDED[pid]) if pid in ADDED else ""),
                 "technique": c["technique"],
             }
         )
